@@ -19,7 +19,6 @@ package ipfilter
 
 import (
 	"net"
-	"strings"
 
 	"github.com/yl2chen/cidranger"
 
@@ -62,8 +61,9 @@ func New(spec *Spec) *IPFilter {
 			ip := net.ParseIP(ipcidr)
 			if ip != nil {
 				mask := allOnesIPv4Mask
-				// https://stackoverflow.com/a/48519490/1705845
-				if strings.Count(ipcidr, ":") >= 2 {
+				// An IPv4-mapped IPv6 literal (::ffff:a.b.c.d) is the IPv4
+				// address a.b.c.d, for the ranger as well as for net.IP.
+				if ip.To4() == nil {
 					mask = allOnesIPv6Mask
 				}
 				ipNet := net.IPNet{IP: ip, Mask: mask}
@@ -75,6 +75,11 @@ func New(spec *Spec) *IPFilter {
 			if err != nil {
 				logger.Errorf("BUG: %s is an invalid ip or cidr", ipcidr)
 				continue
+			}
+			// ::ffff:a.b.c.d/n (n >= 96) is the IPv4 network a.b.c.d/(n-96).
+			if ip4 := ipNet.IP.To4(); ip4 != nil && len(ipNet.Mask) == net.IPv6len {
+				ones, _ := ipNet.Mask.Size()
+				ipNet = &net.IPNet{IP: ip4, Mask: net.CIDRMask(ones-96, 8*net.IPv4len)}
 			}
 			ranger.Insert(cidranger.NewBasicRangerEntry(*ipNet))
 		}
